@@ -28,7 +28,11 @@ def generate(r):
     edge = r.random() < 0.15
     n = r.choice([2, 3, 4, 5, 6, 8, 10, 12])
     uses = [0] * n
-    intervals = r.choice([0, 0, 0.7, 1.5])      # interval jobs re-arm for ever: such runs end by cancel / stop / Err / poll limit
+    # interval jobs re-arm for ever (such runs end by cancel / stop / Err / poll limit) and re-enqueue their children at
+    # every tick: to keep the number of executed jobs small they are enqueued only by the host or by a job that itself
+    # runs once (enqueued once, by the host, not as an interval), and runs with intervals get small poll limits
+    intervals = r.choice([0, 0, 0.7, 1.5])
+    top = [True]
 
     def enq(lo):
         cands = [c for c in range(lo, n) if uses[c] < 2]
@@ -36,12 +40,13 @@ def generate(r):
             return None
         c = r.choice(cands[:4]) if r.random() < 0.7 else r.choice(cands)
         uses[c] += 1
-        k = _pick(r, [(4, 0), (2, 1), (3, 2), (intervals, 3)])
+        k = _pick(r, [(4, 0), (2, 1), (3, 2), (intervals if top[0] else 0, 3)])
         d = r.choice([0, 0, 1, 1, 2, 3, 5, 10, 20]) if k == 2 else (r.choice([0, 1, 1, 2, 3, 5]) if k == 3 else 0)
         feat.add(('promise', 'generic', 'timeout', 'interval')[k])
         return (k, d, c)
 
     init = [e for e in (enq(0) for _ in range(r.choice([1, 2, 2, 3, 4]))) if e]
+    top[0] = False
     errp = r.choice([0, 0, 0.05, 0.15])
     jobs = []
     for i in range(n):
@@ -51,6 +56,16 @@ def generate(r):
             feat.add('err')
         new = [e for e in (enq(i + 1) for _ in range(r.choice([0, 0, 1, 1, 2, 3]))) if e]
         jobs.append((adv, err, new))
+    if intervals:
+        for k0, _, c0 in list(init):
+            if k0 != 3 and uses[c0] == 1 and r.random() < 0.5:
+                cands = [c for c in range(c0 + 1, n) if uses[c] < 2]
+                if cands:
+                    c2 = r.choice(cands)
+                    uses[c2] += 1
+                    jobs[c0] = (jobs[c0][0], jobs[c0][1], jobs[c0][2] + [(3, r.choice([0, 1, 1, 2, 3, 5]), c2)])
+                    feat.add('interval')
+                    feat.add('interval-from-job')
     if edge:
         feat.add('edge')
         k = r.choice(['outside', 'empty-init', 'self', 'self', 'tiny'])
@@ -77,6 +92,8 @@ def generate(r):
     np_ = r.choice([1, 2, 3, 5, 8, 50, 50, 50]) if not edge else r.choice([1, 1, 2, 3, 50])
     bump = r.choice([0, 1, 5, 1000, 1000])
     m = r.choice([1, 3, 50, 50])
+    if 'interval' in feat:
+        np_, m = min(np_, r.choice([3, 5, 8])), min(m, r.choice([3, 8]))
     case = {'init': init, 'jobs': jobs, 'stop': sorted(stop), 'cancel': cancel, 'n': np_, 'bump': bump, 'm': m, 'features': sorted(feat)}
     case['text'] = to_text(case)
     return case
